@@ -15,11 +15,16 @@ func TestVerifEmittedCommandsParse(t *testing.T) {
 		{"urlprefix-/x weight=abc"},
 		{"urlprefix-/y", `say "hi"`},
 		{"urlprefix-/z", `back\slash`},
+		{"urlprefix-/r redirect=301,:foo"},
+		{"urlprefix-/x["},
 	} {
 		r := routecmd{prefix: "urlprefix-", svc: &api.CatalogService{ServiceName: "svc", ServiceAddress: "1.2.3.4", ServicePort: 80, ServiceTags: tags}}
 		for _, cmd := range r.build() {
 			if _, err := route.Parse(bytes.NewBufferString(cmd)); err != nil {
 				t.Errorf("tags %q: emitted %q which the route parser rejects: %v", tags, cmd, err)
+			}
+			if _, err := route.NewTable(bytes.NewBufferString(cmd)); err != nil {
+				t.Errorf("tags %q: emitted %q which table construction rejects: %v", tags, cmd, err)
 			}
 		}
 	}
